@@ -492,7 +492,7 @@ pub fn run(run: &mut Run) {
         file must be rejected when it lies inside the declared content; every count field is overwritten with -1, i32::MIN, 2^31-1, \
         count+1 (must not panic, must stay within the allocation bound of 64 KiB + 64 x input, count+1 must be rejected); random byte \
         strings with and without the magic; files whose collections have 255..257, 32 767..32 768 and 65 535..70 000 elements (and files declaring more than they hold); the two shipped files whole and cut at every point of their first 4 KB; from_file / \
-        from_pathbuf on a temporary file must agree with the in-memory reader, and so must readers that deliver the bytes piecewise (1; 7,3; 64,1 bytes per call). Non-trivial = the file holds a non-empty collection, a \
+        from_pathbuf on a temporary file must agree with the in-memory reader, and so must readers that deliver the bytes piecewise (1; 7,3; 64,1 bytes per call), reading and re-writing at stream positions 1, 2, 4, 5, 12, and sinks that accept the bytes piecewise or fail half-way. Non-trivial = the file holds a non-empty collection, a \
         hostile count, or is a truncation inside the body."
         .into();
     run.assumptions = vec![
